@@ -1,6 +1,7 @@
 import RgVerif.Model.LineBuffer
 import RgVerif.Model.ReadByLine
 import RgVerif.Driver.SearcherCommon
+import RgVerif.Spec.LineSafe
 namespace RgVerif.Driver.C02
 open RgVerif RgVerif.LineBuffer
 
@@ -95,6 +96,18 @@ def handle (cmd : String) (args : List Sx) : String :=
       let s1 := (run (LB.init cfg) ⟨inp1, script1, 0⟩ ops1).1
       ";".intercalate (transcript s1.clear ⟨inp2, script2, 0⟩ ops2)
     | _, _, _, _, _, _, _ => "bad-op"
+  -- `c02.linesafe cfg matcher buf`: the executable certificate (`lineSafeCheck`, sound by
+  -- `lineSafeCheck_sound`) of the hypothesis of theorem `C02_fast` for ONE window `buf` of the input,
+  -- on the real matcher's answers for that window (`table-miss` if the table lacks an answer)
+  | "c02.linesafe", [cfg, m, buf] =>
+    match SearcherCommon.parseCfg cfg, SearcherCommon.parseMatcher m, buf.bytes? with
+    | some cfg, some mk, some buf =>
+      let go := fun (missing : Bool) =>
+        let m := mk buf missing
+        let sl := (GrepSpec.splitLines cfg.lineTerm.asByte buf).map fun l => (l, GrepSpec.lineSel cfg m l)
+        GrepSpec.lineSafeCheck cfg m buf sl
+      if go false == go true then (if go false then "1" else "0") else "table-miss"
+    | _, _, _ => "bad-op"
   | "c02.spec", [cfg, inp, a, n] =>
     match parseCfg cfg, inp.bytes?, a.nat?, n.nat? with
     | some cfg, some inp, some a, some n => toHex (window (view cfg inp) a n)
